@@ -22,3 +22,5 @@ open Gossamer.C34
 #print axioms Gossamer.C34.goodTable_today
 #print axioms Gossamer.C34.goodTable_rwmutex
 #print axioms Gossamer.Monitor.modeIn_lock
+#print axioms C34_conservation
+#print axioms C34_nil_takes_nothing
